@@ -245,6 +245,11 @@ func (s *LinearState) rem(ctx *Context, id string, lock bool) (bool, error) {
 }
 
 func (s *LinearState) deleteDependencies(ctx *Context, id string) error {
+	if IsVariable(id) {
+		// No fact has such an id (see GenId), and as a pattern it
+		// would match every "deleteWith".
+		return nil
+	}
 	Log(DEBUG, ctx, "LinearState.deleteDependencies", "id", id)
 	pattern := Map{
 		KW_DeleteWith: []string{id},
